@@ -219,8 +219,33 @@ func stEntries(rng *rand.Rand, nEach int) (rs []stReadEntry, ws []stWriteEntry) 
 		}
 	}
 	// NBT documents
-	for i := 0; i < nEach+2; i++ {
+	for i := 0; i < nEach+3; i++ {
 		tree := randTree(rng, 2, 10)
+		if i == 0 {
+			// a document holding every tag type (random trees may miss some): each payload kind is read
+			// through its own code path in every decoder
+			tree = &nbtNode{T: 10}
+			for tg := 1; tg <= 12; tg++ {
+				var n *nbtNode
+				switch tg {
+				case 9:
+					n = &nbtNode{T: 9, Et: 11, Lst: []*nbtNode{randTree(rng, 0, 11), {T: 11, Wds: [][]int{{0, 0, 1, 2}, {255, 255, 255, 254}}}}}
+				case 10:
+					n = &nbtNode{T: 10, Ent: []nbtEntry{{K: ints([]byte("in")), N: &nbtNode{T: 12, Wds: [][]int{{1, 2, 3, 4, 5, 6, 7, 8}}}}}}
+				case 7:
+					n = &nbtNode{T: 7, Pat: []int{1, 2, 3, 4, 5, 6, 7, 8, 9}}
+				case 8:
+					n = &nbtNode{T: 8, Pat: ints([]byte("a string value"))}
+				case 11:
+					n = &nbtNode{T: 11, Wds: [][]int{{0, 0, 0, 1}, {0, 0, 0, 2}, {127, 255, 255, 255}}}
+				case 12:
+					n = &nbtNode{T: 12, Wds: [][]int{{0, 0, 0, 0, 0, 0, 0, 1}, {0, 0, 0, 0, 0, 0, 0, 2}, {128, 0, 0, 0, 0, 0, 0, 0}}}
+				default:
+					n = randTree(rng, 0, tg)
+				}
+				tree.Ent = append(tree.Ent, nbtEntry{K: ints([]byte(fmt.Sprintf("tag%02d", tg))), N: n})
+			}
+		}
 		fmtName := []string{"file", "network"}[i%2]
 		doc := nbtDocBytes(fmtName, []byte("nm"), tree)
 		in := append(append([]byte{}, doc...), 7, 7)
